@@ -504,9 +504,17 @@ func runScenario(c *core.Ctx, stream string, idx int, s *script, noise uint64, n
 }
 
 // waitersBlocked tells whether every waiter that has not returned is blocked
-// inside the wait itself (WaitGroup), i.e. is not merely on its way out.
+// inside the wait itself, i.e. is not merely on its way in or out: its
+// innermost frame outside runtime/sync is AddEventAndWait and the scheduler
+// reports it waiting for a semaphore, a channel or a condition (whatever the
+// implementation waits on). In the same dump no other goroutine may be able to
+// take a step (a goroutine outside the pool could be the one that is going to
+// deliver the notification).
 func waitersBlocked(results []*cascadeResult) bool {
 	d := sched.Dump() // state and stack from the same dump
+	if sched.CanStep(d, sched.GoID()) {
+		return false
+	}
 	for _, cr := range results {
 		select {
 		case <-cr.done:
@@ -514,12 +522,17 @@ func waitersBlocked(results []*cascadeResult) bool {
 		default:
 		}
 		g := atomic.LoadUint64(&cr.gid)
-		if g == 0 || !sched.BlockedIn(d, g, sched.WaitGroupStates, "sync.(*WaitGroup).Wait", "AddEventAndWait") {
+		if g == 0 || !sched.BlockedIn(d, g, waitStates, "AddEventAndWait") {
+			return false
+		}
+		if !strings.HasSuffix(sched.InnermostNonRuntime(d, g), ".AddEventAndWait") {
 			return false
 		}
 	}
 	return true
 }
+
+var waitStates = []string{"semacquire", "sync.WaitGroup.Wait", "chan receive", "select", "sync.Cond.Wait", "chan receive (nil chan)", "select (no cases)"}
 
 func traceTail(tr *sched.Tracer, n int) []string {
 	evs := tr.Snapshot()
@@ -550,7 +563,9 @@ func time500us() { time.Sleep(500 * time.Microsecond) }
 // ---- gate matrix ---------------------------------------------------------------
 
 var holdPoints = []string{"mon.finish.unlocked", "mon.posted", "task.run.begin", "task.run.processed", "task.run.end",
-	"task.err.begin", "task.err.seterrors", "task.err.finished", "pool.get.empty", "pool.worker.loop", "pool.get.popped", "pool.idle.beforewait"}
+	"task.err.begin", "task.err.seterrors", "task.err.finished", "pool.get.empty", "pool.worker.loop", "pool.get.popped", "pool.idle.beforewait",
+	// the adding goroutine (first AddTask of a scenario is the root event's) between queueing / signalling and its wait
+	"pool.add.pushed", "pool.add.signalled"}
 var untilPoints = []string{"mon.created.locked", "mon.activated.locked", "mon.finish.locked", "mon.finish.unlocked", "mon.posted",
 	"task.run.begin", "task.run.processed", "task.err.seterrors", "task.err.finished", "pool.get.empty", "pool.add.signalled", "tq.push", "tq.pop"}
 
@@ -584,7 +599,7 @@ func capped(c *core.Ctx, stream string, idx int) bool {
 
 // Run is the check.
 func Run(c *core.Ctx) {
-	c.Note("rule", "cascade scripts are data (per event kind a list of rules with priority, fail flag, yields and child events with priorities, incl. non-triggering children); an independent expansion gives the expected (event, rule) invocations and failures (respecting fail-on-first-error); the real engine runs them with harness closures as actions, 1..16 workers, 1..8 cascades in flight from separate goroutines; streams: 'gate' = 4 fixed shapes x 12 hold points x 13 partner points (one goroutine held at the hold point until another passed the partner point; infeasible pairs are released), 'nested' = rule actions that wait for a nested cascade of their own (fan < workers) with a stuck predicate that accepts workers blocked in a nested wait, 'ecal' = the same scripts as ECAL sinks awaited with the built-in addEventAndWait, 'noise' = seeded random scripts with random yields/sleeps at the lock-free hook points, also under -race; oracles: stamps of action ends vs. return of AddEventAndWait, exactly-once invocation table, AllErrors() at return time and again at quiescence vs. expected failures, finish-handler count, IsFinished of every monitor handed out, stuck-state predicate for a wait that cannot return; non-trivial/distinct = distinct interleaving signatures of the hook trace and feasible gate cases")
+	c.Note("rule", "cascade scripts are data (per event kind a list of rules with priority, fail flag, yields and child events with priorities, incl. non-triggering children); an independent expansion gives the expected (event, rule) invocations and failures (respecting fail-on-first-error); the real engine runs them with harness closures as actions, 1..16 workers, 1..8 cascades in flight from separate goroutines; streams: 'gate' = 4 fixed shapes x 14 hold points (12 on workers, 2 on the adding goroutine between AddTask and its wait) x 13 partner points (one goroutine held at the hold point until another passed the partner point; infeasible pairs are released), 'nested' = rule actions that wait for a nested cascade of their own (fan < workers) with a stuck predicate that accepts workers blocked in a nested wait, 'ecal' = the same scripts as ECAL sinks awaited with the built-in addEventAndWait, 'noise' = seeded random scripts with random yields/sleeps at the lock-free hook points, also under -race; oracles: stamps of action ends vs. return of AddEventAndWait, exactly-once invocation table, AllErrors() at return time and again at quiescence vs. expected failures, finish-handler count, IsFinished of every monitor handed out, stuck-state predicate for a wait that cannot return; non-trivial/distinct = distinct interleaving signatures of the hook trace and feasible gate cases")
 	shapes := gateShapes()
 	i := 0
 	for si, sh := range shapes {
